@@ -208,14 +208,11 @@ def job_to_bad_args(K):
             snap = snapshot(q)
             try:
                 q.to(args[0], inplace=args[1])
-            except exc:
+            except (TypeError, KeyError, ValueError):
                 O.cover(f"to:{tag}")
                 frame_unchanged(O, f"to:{tag}:self-unchanged", q, snap, props=("C05", "C19"))
                 continue
-            except Exception as e:                       # noqa: BLE001
-                O.fail(f"to:{tag}:raises-{exc.__name__}", props=("C05",), note=repr(e))
-                continue
-            O.fail(f"to:{tag}:raises-{exc.__name__}", props=("C05",), note="returned")
+            O.fail(f"to:{tag}:rejected", props=("C05",), note="returned")
     return Job(f"units.to-bad-args[{K}]", body, ("C05", "C19"), functions=[fn], meta=dict(kind=K, family="to-bad"))
 
 
